@@ -202,8 +202,14 @@ func (P *Prog) deepPathsD(fn *ssa.Function, depth int, on map[*ssa.Function]bool
 					np.condAt = append(np.condAt, nil)
 				}
 			}
-			for _, r := range q.results() {
+			for i, r := range q.results() {
 				np.resOv = append(np.resOv, r.subst(m))
+				// the helper's result on this path is what the caller's own
+				// conditions about the call speak of
+				if (r.Op == "nil" || r.Op == "const") && i < len(res) {
+					np.conds = append(np.conds, normFact(&Term{Op: "binop", S: "==", Args: []*Term{res[i], r}}, true))
+					np.condAt = append(np.condAt, nil)
+				}
 			}
 			np.via = append(append([]*ssa.Function{}, p.via...), h)
 			np.via = append(np.via, q.via...)
@@ -212,6 +218,30 @@ func (P *Prog) deepPathsD(fn *ssa.Function, depth int, on map[*ssa.Function]bool
 			}
 		}
 		delete(on, h)
+	}
+	return out
+}
+
+// deepViews: deepPaths of fn with the path conditions additionally expanded
+// through the in-package helpers whose outcome they test (one view per
+// combination of helper paths); calls of the functions `keep` accepts stay as
+// they are. Splitting a check into helpers leaves the views' conditions
+// unchanged.
+func (P *Prog) deepViews(fn *ssa.Function, keep func(*ssa.Function) bool) []*Path {
+	var out []*Path
+	for _, p := range P.deepPaths(fn) {
+		alts := P.expandCondsF(p.conds, 0, keep)
+		if len(alts) > 4096 {
+			out = append(out, p)
+			continue
+		}
+		for _, alt := range alts {
+			q := *p
+			q.conds = alt
+			if q.feasible() {
+				out = append(out, &q)
+			}
+		}
 	}
 	return out
 }
@@ -565,7 +595,7 @@ func (P *Prog) expandCondsF(conds []Fact, depth int, keep func(*ssa.Function) bo
 			}
 		}
 		alts = next
-		if len(alts) > 768 {
+		if len(alts) > 4096 {
 			// give up expanding further conditions
 			for i := range alts {
 				alts[i] = append(alts[i], conds[ci+1:]...)
@@ -658,7 +688,7 @@ func (P *Prog) expandOneF(c Fact, depth int, keepF func(*ssa.Function) bool) [][
 		m[itoa(int64(i))] = a
 	}
 	paths := P.allPaths(g)
-	if len(paths) > 48 {
+	if len(paths) > 256 {
 		return keep
 	}
 	var out [][]Fact
@@ -708,7 +738,7 @@ func (P *Prog) expandOneF(c Fact, depth int, keepF func(*ssa.Function) bool) [][
 		for _, e := range P.expandCondsF(set, depth+1, keepF) {
 			out = append(out, append([]Fact{c}, e...))
 		}
-		if len(out) > 256 {
+		if len(out) > 1024 {
 			return keep
 		}
 	}
